@@ -36,7 +36,7 @@ def replay(binary, path, env, times=3, timeout=120):
     nf, log = 0, ""
     for _ in range(times):
         try:
-            r = subprocess.run([binary, path], capture_output=True, text=True, env=env, timeout=timeout, errors="replace")
+            r = subprocess.run([binary, "-artifact_prefix=" + os.path.join(VERIF, "build", "replay-art-"), path], capture_output=True, text=True, env=env, timeout=timeout, errors="replace")
             log = r.stdout + r.stderr
             if r.returncode != 0:
                 nf += 1
